@@ -23,6 +23,27 @@ Theorem c05_serial : forall fx cbk cls sch,
 Proof. exact serial. Qed.
 Print Assumptions c05_serial.
 
+(* the number of start() goroutines is a state component of its own ([live]:
+   +1 at every `go o.start()` in tryEnqueue and in the deferred block, -1 when
+   a start() goroutine returns).  It never exceeds one, it is exactly the
+   number of live entries of the worker list, and busyCh is non-nil exactly
+   while a goroutine exists - over all thread lists and all schedules, for
+   both versions of the deferred block *)
+Theorem c05_one_worker : forall fx cbk cls sch,
+  Forall initial_cpc cls ->
+  let s := run fx (init cbk cls) sch in
+  live s <= 1 /\ live s = count_live (workers s) /\ (live s = 1 <-> busy s <> None).
+Proof. exact one_worker. Qed.
+Print Assumptions c05_one_worker.
+
+(* the counter is not constantly 0: after the hand-over in the deferred block
+   two start() goroutines have been created, one exists *)
+Example c05_one_worker_handover :
+  let s := run true (init None [CEnq 0; CDone0; CClose0])
+               [C 0; W 0; W 0; W 0; W 0; C 1; C 2; W 0] in
+  workers s = [WExit; WStart] /\ live s = 1 /\ busy s <> None.
+Proof. vm_compute. repeat split; discriminate. Qed.
+
 (* no op runs twice, and ops run in the order in which they were accepted,
    without gaps *)
 Theorem c05_order_once : forall fx cbk cls sch,
